@@ -129,3 +129,38 @@ impl UniOpts {
             .collect()
     }
 }
+
+/// Periodic longer maps: every motif of `1..=mlen` objects (hit sounds, stacked / far positions, mania columns and chords
+/// included) repeated `reps` times. State that is carried from object to object — colour / rhythm patterns, stacking,
+/// per-column hold ends, combo bookkeeping — is only exercised by maps of this length.
+pub struct MotifUniverse {
+    pub name: String,
+    pub cfg: ModeCfg,
+    pub alpha: Alphabet,
+    pub mlen: u32,
+    pub reps: u32,
+    /// number of motifs (the empty one excluded)
+    pub total: u64,
+}
+
+impl MotifUniverse {
+    pub fn spec(&self, idx: u64) -> MapSpec {
+        MapSpec { repeat: self.reps, diff: DiffPreset::D4, ..MapSpec::new(self.cfg.src, self.alpha.seq(idx + 1, self.mlen)) }
+    }
+}
+
+pub fn motif_universes(cfgs: &[ModeCfg], mlen: u32, reps: u32, wide: bool) -> Vec<MotifUniverse> {
+    cfgs.iter()
+        .map(|cfg| {
+            let alpha = if cfg.src == 3 {
+                Alphabet::product(&[Kind::Circle, Kind::Hold(100), Kind::Hold(300)], if wide { &[0, 110, 250] } else { &[110, 250] }, &[PosK::Same], &[0], &[0, 1, 2])
+            } else if wide {
+                Alphabet::product(&[Kind::Circle, Kind::Slider2, Kind::SliderLong, Kind::Spinner(600)], &[110, 250], &[PosK::Same, PosK::Far], &[0, 8], &[0])
+            } else {
+                Alphabet::product(&[Kind::Circle, Kind::Slider2, Kind::Spinner(600)], &[110, 250], &[PosK::Same, PosK::Far], &[0, 8], &[0])
+            };
+            let total = alpha.count_upto(mlen) - 1;
+            MotifUniverse { name: format!("motif/{}to{}/len<={mlen}-x{reps}/|A|={}", cfg.src, cfg.dst, alpha.len()), cfg: *cfg, alpha, mlen, reps, total }
+        })
+        .collect()
+}
